@@ -169,7 +169,7 @@ Proof.
   - intros H _. apply (Htrim idx). exact H.
   - destruct (Nat.eqb off 0) eqn:E0.
     + intros H Hc. apply Ok_inj in H. injection H as <- <-. apply Nat.eqb_eq in E0.
-      rewrite (Hc eq_refl E0). exists []. split; [rewrite ser_rev_cons; reflexivity|reflexivity].
+      rewrite (Hc eq_refl E0). exists []. split; [rewrite ser_rev_cons; destruct partial; reflexivity|reflexivity].
     + intros H _. apply (Htrim off). exact H.
 Qed.
 
